@@ -85,7 +85,28 @@ CLAIM = {
             'parts of the ExtInt path loss (integer next to fractional); the stacked transmit data that '
             'corrupt_data hands to corrupt_concatenated_data is observed by wrapping that method on the instance '
             'and compared with the model op stackData (theorems stacked_data_keeps_every_block, '
-            'corrupt_is_split_of_corruptCat) and with the first-principles stack.',
+            'corrupt_is_split_of_corruptCat) and with the first-principles stack. R8-R14 (round 4): R8 '
+            '(argument forms) - every parameter of init_from_channel_matrix / randomize / set_pathloss / '
+            'set_post_filter / get_Hkl / get_Hk / get_Hk_without_ext_int / corrupt_data / '
+            'corrupt_concatenated_data / set_*_seed positionally AND by keyword, set_pathloss() / (None) / '
+            '(None, None), re_seed() for set_*_seed(None), counts as python int / numpy integer / 0-d array / '
+            'length-1 array, equivalent entry points (get_Hk_with_ext_int = get_Hk, H[k,l] = get_Hkl, corrupt_data '
+            '= split of corrupt_concatenated_data: theorem corrupt_is_split_of_corruptCat); the classes have no '
+            'constructor arguments, so there is no constructor-vs-setter path; the model takes logical values, so '
+            'argument forms are correspondence/oracle only. R9 - K, indexes k, l and NtE as python int, '
+            'np.int8..np.int64, np.uint8..np.uint64, np.intp, 0-d array; indexes above 256 (one K=257 history per '
+            'quick run); negative indexes are not documented and not generated; bool is not a meaningful index. '
+            'R10 - see above (theorem stacked_data_keeps_every_block + correspondence/oracle); 1-D blocks are not '
+            'allowed by the API. R11 - model op `query` (calc_Q, calc_JP_Q, calc_SINR, calc_JP_SINR, '
+            'calc_cov_matrix_extint_*, copy, deepcopy, pickle, repr/==/hash) inside the histories: THEOREM '
+            'reads_do_not_change_views / coherent_step on the model, correspondence + oracle + fresh twin on the '
+            'code. R12 does not apply: the channel has no dict / set / named containers, users are identified by '
+            'position, which is the documented meaning. R13 - derived objects (copy.copy, copy.deepcopy, pickle '
+            'round trip) mutated and used on their own while the parent goes on: on the model independence is by '
+            'construction (states are values); on the code the child is compared with the model run of prefix + '
+            'child operations and with its own first-principles shadow, the parent with its own; per-user views '
+            '(blocks of H) are read-only views (R3). R14 - K = 257 users in every quick run, 257 / 258 / 300 '
+            '(plain and ExtInt) in thorough; 2^16+1 users would need a 2^32-entry matrix and is not run.',
 }
 
 PL_VALUES = [Fraction(1), Fraction(1, 4), Fraction(1, 16), Fraction(1, 64), Fraction(4), Fraction(9, 16),
@@ -1851,6 +1872,24 @@ def note_branches(ctx, case):
                     ctx.branch('r5:noise-var-zero-after-positive')
         if k == 'corruptc':
             ctx.branch('r7:corrupt_concatenated_data')
+        if op.get('kw') and k in ('init', 'rand', 'setpl', 'setw', 'Hkl', 'Hk', 'Hkne', 'corrupt', 'corruptc'):
+            ctx.branch('r8:keyword-arguments:' + CALLS[k])
+        if k in ('init', 'rand') and 'arr0d' in (op.get('nrf'), op.get('ntf'), op.get('ntef')):
+            ctx.branch('r8:0-d-array-count')
+        if k == 'rand' and op.get('reseed'):
+            ctx.branch('r8:re_seed')
+        if k == 'setpl' and op.get('noarg'):
+            ctx.branch('r8:default-argument')
+        if op.get('kf', 'py') != 'py' and k in ('Hkl', 'Hk', 'Hkne', 'init', 'rand'):
+            ctx.branch('r9:index-form:' + op['kf'])
+        if k in ('Hkl', 'Hk') and not op.get('expect') and op['k'] >= 256:
+            ctx.branch('r9:index-above-256')
+        if k == 'query':
+            ctx.branch('r11:query:' + op['which'])
+        if k == 'fork':
+            ctx.branch('r13:derived-object')
+        if k in ('init', 'rand') and not op.get('expect') and op['K'] >= 257:
+            ctx.branch('r14:users>=257')
         if op.get('pre'):
             ctx.branch('r7:mutators-before-first-init')
         if k in ('layout', 'pl', 'bigW', 'nv', 'ln'):
@@ -2137,6 +2176,41 @@ def enum_histories(ext, depth, reduced=False):
         yield from rec([first], d)
 
 
+def big_case(rng, K, ext, full_H=False):
+    """R14 / R9: K = 257, 258, 300 users (one antenna each, a few with two), indexes above 256 in several
+    integer forms, a non-uniform K x K path loss"""
+    nr = [1] * K
+    nt = [1] * K
+    nr[0], nt[K - 1], nr[K // 2] = 2, 2, 2
+    ntE = [1, 2] if ext else []
+    M = [[[str(rng.randint(-3, 3)), str(rng.randint(-3, 3))] for _ in range(sum(nt) + sum(ntE))]
+         for _ in range(sum(nr))]
+    pool = ['1', '1/4', '4', '1/16', '9/16', '1/64', '25/4', '16', '9/4', '1/256', '9']
+    p = [[pool[(3 * k + 5 * l) % len(pool)] for l in range(K)] for k in range(K)]
+    pe = [[pool[(k + 7 * l) % len(pool)] for l in range(len(ntE))] for k in range(K)]
+    one = lambda n, i: [[[str(1 + (i % 3)), str((i % 2) - (i % 5 == 0))]] for _ in range(n)]
+    forms = ['np.int16', 'np.uint16', 'np.intp', 'arr0d', 'np.int64', 'np.uint64', 'py']
+    ops = [{'op': 'init', 'M': M, 'nr': nr, 'nt': nt, 'K': K, 'ntE': ntE, 'kf': rng.choice(forms),
+            'nrf': rng.choice(['array', 'uint16', 'list']), 'ntf': 'array', 'kw': rng.chance(0.5)},
+           {'op': 'setpl', 'p': p, 'pe': pe if ext else None},
+           {'op': 'layout'},
+           {'op': 'Hkl', 'k': K - 1, 'l': K - 2, 'kf': rng.choice(forms[:-1])},
+           {'op': 'Hkl', 'k': 256, 'l': 256, 'kf': rng.choice(forms[:-1]), 'kw': True},
+           {'op': 'Hkl', 'k': 0, 'l': K + len(ntE) - 1, 'kf': rng.choice(forms[:-1])},
+           {'op': 'Hk', 'k': K - 1, 'kf': rng.choice(forms[:-1])},
+           {'op': 'Hkl', 'k': K, 'l': 0, 'kf': 'np.int16', 'expect': 'IndexError'},
+           {'op': 'bigH'},
+           {'op': 'corrupt', 'x': [one(n, i) for i, n in enumerate(nt)], 'xe': [one(n, 7) for n in ntE],
+            'nseed': 11, 'ns': 1},
+           {'op': 'rand', 'nr': list(reversed(nr)), 'nt': list(reversed(nt)), 'K': K, 'ntE': list(reversed(ntE)),
+            'seed': 5, 'kf': rng.choice(forms), 'resplit': True},
+           {'op': 'Hkl', 'k': K - 1, 'l': 257 if K > 257 else 256, 'kf': rng.choice(forms[:-1])},
+           {'op': 'Hk', 'k': 256, 'kf': rng.choice(forms[:-1])}]
+    if full_H:
+        ops += [{'op': 'H'}, {'op': 'bigH'}]
+    return {'cls': 'ext' if ext else 'plain', 'stream': 'exact', 'mode': 'big', 'ops': ops}
+
+
 # ------------------------------------------------------------------ check
 def seeded_cases(ctx, n, maxlen, exact=True):
     cases = []
@@ -2163,7 +2237,15 @@ REQUIRED = ['read-mutate-read:plain', 'read-mutate-read:ext', 'relayout:plain', 
             'r1:mixed-blocks:corrupt_data:first-complex-later-real', 'r1:mixed-blocks:corrupt_data:ext',
             'r1:mixed-blocks:set_post_filter:first-real-later-complex',
             'r1:mixed-blocks:set_post_filter:first-complex-later-real', 'r1:mixed-blocks:set_pathloss-parts',
-            'op:plain:stacked-data', 'op:ext:stacked-data']
+            'op:plain:stacked-data', 'op:ext:stacked-data',
+            'r8:keyword-arguments:init_from_channel_matrix', 'r8:keyword-arguments:randomize',
+            'r8:keyword-arguments:set_pathloss', 'r8:keyword-arguments:set_post_filter',
+            'r8:keyword-arguments:get_Hkl', 'r8:keyword-arguments:get_Hk', 'r8:keyword-arguments:corrupt_data',
+            'r8:keyword-arguments:corrupt_concatenated_data', 'r8:0-d-array-count', 'r8:re_seed',
+            'r8:default-argument', 'r9:index-form:np.uint16', 'r9:index-form:np.intp', 'r9:index-form:arr0d',
+            'r9:index-form:np.uint64', 'r9:index-above-256', 'r11:query:calc_SINR', 'r11:query:calc_Q',
+            'r11:query:deepcopy', 'r11:query:pickle', 'r13:derived-object', 'r13:derived-object:plain:copy',
+            'r13:derived-object:plain:deepcopy', 'r13:derived-object:ext:pickle', 'r14:users>=257']
 
 
 def check(ctx):
@@ -2185,6 +2267,10 @@ def check(ctx):
     n_hist, maxlen = (500, 30) if quick else (6000, 60)
     corpus = corpus_cases()
     cases = seeded_cases(ctx, n_hist, maxlen)
+    bigs = [big_case(ctx.rng.fork('big'), 257, bool(ctx.seed % 2))] if quick else \
+        [big_case(ctx.rng.fork('big%d' % K), K, e, full_H=(K == 257 and not e))
+         for K in (257, 258, 300) for e in (False, True)]
+    corpus = corpus + bigs
     try:
         correspond(ctx, corpus, 'corpus')
         correspond(ctx, cases, 'seeded')
